@@ -123,6 +123,32 @@ def _dtype_programs() -> dict[str, dict[str, Any]]:
         P[f"matmul_layernorm_{nm}"] = {"fn": (lambda dt: lambda x: ((lambda h: (h - h.mean()) / jnp.sqrt(h.var() + 1e-3))(x.astype(dt).reshape(2, 3) @ jnp.ones((3, 3), dt))))(dt), "specs": [v(jnp.float32)], "x": [np.arange(6, dtype=np.float32) / 3]}
         P[f"round_floor_{nm}"] = {"fn": (lambda dt: lambda x: jnp.round(x.astype(dt)) + jnp.floor(x.astype(dt) * 1.5))(dt), "specs": [v(jnp.float32)], "x": [np.arange(6, dtype=np.float32) / 3]}
         P[f"linspace_dynamic_{nm}"] = {"fn": (lambda dt: lambda a: jnp.linspace(a, a + 2, 5, dtype=dt))(dt), "specs": [sc(jnp.float32)], "x": [np.float32(1.0)]}
+    # opset-gated components *inside* nested scopes (Loop / If / Scan bodies, ONNX function bodies):
+    # the declared opset has to reach every nested lowering context
+    from flax import nnx
+
+    from vlib import fnmods
+
+    m = lambda n=6: jax.ShapeDtypeStruct((2, n), jnp.float32)  # noqa: E731
+    xm = np.arange(12, dtype=np.float32).reshape(2, 6) / 7 - 0.5
+    rms = nnx.RMSNorm(6, rngs=nnx.Rngs(0))
+    P["nested_rmsnorm_in_fori"] = {"fn": lambda x: lax.fori_loop(0, 2, lambda i, v: rms(v) + 0.1, x), "specs": [m()], "x": [xm]}
+    P["nested_rmsnorm_in_cond"] = {"fn": lambda x: lax.cond(jnp.sum(x) > 0, lambda v: rms(v), lambda v: v * 2.0, x), "specs": [m()], "x": [xm]}
+    P["nested_rmsnorm_in_scan"] = {"fn": lambda x: lax.scan(lambda c, r: (rms(c + r), c.sum()), x[0], x)[0], "specs": [m()], "x": [xm]}
+    P["nested_rmsnorm_in_while"] = {"fn": lambda x: lax.while_loop(lambda s: s[0] < 2, lambda s: (s[0] + 1, rms(s[1])), (0, x))[1], "specs": [m()], "x": [xm]}
+    P["nested_rmsnorm_top_level"] = {"fn": lambda x: rms(x) + 0.1, "specs": [m()], "x": [xm]}
+    P["nested_silu_in_fori"] = {"fn": lambda x: lax.fori_loop(0, 2, lambda i, v: jax.nn.silu(v) + v * jax.nn.sigmoid(v), x), "specs": [m()], "x": [xm]}
+    P["nested_silu_in_cond"] = {"fn": lambda x: lax.cond(jnp.sum(x) > 0, lambda v: jax.nn.silu(v), lambda v: v * jax.nn.sigmoid(v), x), "specs": [m()], "x": [xm]}
+    P["nested_dus_in_fori"] = {"fn": lambda x: lax.fori_loop(0, 2, lambda i, v: lax.dynamic_update_slice(v, jnp.ones((1, 2), v.dtype), (i, 1)), x), "specs": [m()], "x": [xm]}
+    P["nested_dus_in_scan"] = {"fn": lambda x: lax.scan(lambda c, r: (lax.dynamic_update_slice(c, r[:2], (1,)), c.sum()), x[0], x)[0], "specs": [m()], "x": [xm]}
+    P["nested_window_sum_in_fori"] = {"fn": lambda x: lax.fori_loop(0, 2, lambda i, v: lax.reduce_window(v, 0.0, lax.add, (1, 2), (1, 1), "SAME") * 0.5, x), "specs": [m()], "x": [xm]}
+    P["nested_reductions_in_cond"] = {"fn": lambda x: lax.cond(jnp.sum(x) > 0, lambda v: jnp.sum(v, axis=1) + jnp.max(v, axis=1), lambda v: jnp.mean(v, axis=1) - jnp.min(v, axis=1), x), "specs": [m()], "x": [xm]}
+    q = jax.ShapeDtypeStruct((1, 4, 2, 8), jnp.float32)
+    xq = (np.arange(64, dtype=np.float32).reshape(1, 4, 2, 8) / 64) - 0.4
+    P["nested_attention_in_fori"] = {"fn": lambda a: lax.fori_loop(0, 2, lambda i, v: nnx.dot_product_attention(v, v, v), a), "specs": [q], "x": [xq]}
+    P["nested_attention_in_cond"] = {"fn": lambda a: lax.cond(jnp.sum(a) > 0, lambda v: nnx.dot_product_attention(v, v, v), lambda v: v, a), "specs": [q], "x": [xq]}
+    P["nested_gated_in_function_body"] = {"fn": fnmods.c11_outer, "specs": [m()], "x": [xm]}
+    P["nested_gated_in_function_in_loop"] = {"fn": lambda x: lax.fori_loop(0, 2, lambda i, v: fnmods.c11_outer(v), x), "specs": [m()], "x": [xm]}
     return P
 
 
